@@ -497,7 +497,7 @@ Qed.
 (* non-vacuity: a cluster on which the hypotheses hold and the model demands "add a peer on store 4" *)
 Definition ex_store (id z : Z) : store := Store id SUp false false false false false false false false false false [(1, (z, 0))].
 Definition ex_input : input :=
-  Input (Config 3 [1] 1 true true true true true false true)
+  Input (Config 3 [1] 1 true true true true true false true [])
         [ex_store 1 10; ex_store 2 11; ex_store 3 10; ex_store 4 12]
         (Region [Peer 101 1 Voter; Peer 102 2 Voter] (Some (Peer 101 1 Voter)) [] [])
         (Fit [] []) EReplica (MEnv false 0 false false false false None None).
